@@ -10,7 +10,7 @@ PKG = ("src", "hydrodiy")
 
 
 class Mod:
-    def __init__(self, repo, rel):
+    def __init__(self, repo, rel, normalise=True):
         self.rel = rel
         self.path = os.path.join(repo, *PKG, rel)
         if not os.path.exists(self.path):
@@ -20,6 +20,11 @@ class Mod:
             self.tree = ast.parse(self.src)
         except SyntaxError as e:
             raise AnalysisError(f"{rel}: syntax error: {e}")
+        self.raw = self.tree
+        if normalise:
+            from . import pynorm
+            self.raw = ast.parse(self.src)
+            self.tree = pynorm.normalise(self.tree)
         for n in ast.walk(self.tree):
             for c in ast.iter_child_nodes(n):
                 c._parent = n
